@@ -280,6 +280,69 @@ def write_violation(cid, failure, tag):
     return path
 
 
+def run_fuzz(cid, check, tier, seed, shards):
+    """Thorough tier: libFuzzer (atheris) mutates the byte string that Hypothesis decodes into a case of the check's own
+    strategy; coverage feedback comes from lsst.daf.relation, the oracle is the check's run_case.  One process per
+    shard, fresh empty corpus each.  Returns a summary for the evidence file (with the per-shard results under
+    'results'), or None when the check / tier has no such campaign."""
+    import shutil
+    import subprocess
+    import tempfile
+
+    per = getattr(check, "fuzz_runs", lambda t: default_fuzz_runs(check, t))(tier)
+    if os.environ.get("VERIF_FUZZ_RUNS"):
+        per = int(os.environ["VERIF_FUZZ_RUNS"])
+    if not per:
+        return None
+    deps = os.path.join(ROOT, ".deps")
+    probe = subprocess.run([sys.executable, "-c", f"import sys; sys.path.append({deps!r}); import atheris"], capture_output=True)
+    if probe.returncode != 0:
+        subprocess.run([os.path.join(ROOT, "setup.sh"), "atheris"], capture_output=True)
+        probe = subprocess.run([sys.executable, "-c", f"import sys; sys.path.append({deps!r}); import atheris"], capture_output=True)
+    if probe.returncode != 0:
+        print("NOTE: atheris is not importable; the coverage-guided part of the thorough tier was skipped")
+        return {"engine": "atheris", "skipped": "atheris not importable", "results": []}
+    work = tempfile.mkdtemp(prefix=f"fuzz-{cid}-", dir=os.path.join(ROOT, "out") if os.path.isdir(os.path.join(ROOT, "out")) else None)
+    nsh = max(1, min(shards, 16))
+    procs = []
+    env = dict(os.environ)
+    env["PYTHONHASHSEED"] = "0"
+    for i in range(nsh):
+        out = os.path.join(work, f"res{i}.json")
+        cmd = [sys.executable, "-m", "vf.fuzz", cid, tier, str(seed * 1000 + i), str(per), out, os.path.join(work, f"corpus{i}")]
+        procs.append((i, out, subprocess.Popen(cmd, cwd=ROOT, env=env, stdout=subprocess.DEVNULL, stderr=subprocess.PIPE)))
+    results = []
+    summary = {"engine": "atheris (libFuzzer) driving hypothesis fuzz_one_input", "processes": nsh, "runs_per_process": per, "executions": 0, "corpus_entries": 0}
+    for i, out, p in procs:
+        _, err = p.communicate()
+        doc = None
+        if os.path.exists(out):
+            with open(out) as f:
+                doc = json.load(f)
+        res = {"shard": i, "tag": "fuzz", "failure": None, "harness_error": None, "stats": doc["stats"] if doc else None, "wall": doc["wall"] if doc else 0}
+        if p.returncode == 77 and doc and doc.get("failure"):
+            res["failure"] = doc["failure"]
+        elif p.returncode != 0:
+            res["harness_error"] = f"fuzz process {i} exited with {p.returncode}: " + err.decode(errors="replace")[-2500:]
+        if doc:
+            summary["executions"] += doc["executions"]
+        cdir = os.path.join(work, f"corpus{i}")
+        if os.path.isdir(cdir):
+            summary["corpus_entries"] += len(os.listdir(cdir))
+        results.append(res)
+    shutil.rmtree(work, ignore_errors=True)
+    summary["valid_cases"] = sum(r["stats"]["evaluations"] for r in results if r["stats"])
+    summary["results"] = results
+    return summary
+
+
+def default_fuzz_runs(check, tier):
+    """libFuzzer executions per process (16 processes); about a third of them decode to a complete case."""
+    if tier != "thorough":
+        return 0
+    return max(2000, check.budget(tier) // 8)
+
+
 def main(argv=None):
     ap = argparse.ArgumentParser()
     ap.add_argument("id")
@@ -354,6 +417,14 @@ def main(argv=None):
         pool.terminate()
         pool.join()
 
+    # ---- coverage-guided campaign (thorough tier): atheris / libFuzzer over the same strategy and oracle
+    fuzz_info = None
+    if not violations and not harness_errors and not any(r["failure"] or r["harness_error"] for r in results):
+        fuzz_info = run_fuzz(cid, check, a.tier, seed, a.shards)
+        if fuzz_info:
+            for fr in fuzz_info.pop("results"):
+                results.append(fr)
+
     # ---- merge
     total = Stats()
     merged_extra = collections.defaultdict(collections.Counter)
@@ -374,7 +445,7 @@ def main(argv=None):
             harness_errors.append(res["harness_error"])
         if res["failure"]:
             f = res["failure"]
-            path = write_violation(cid, f, "search")
+            path = write_violation(cid, f, res.get("tag", "search"))
             violations.append((path, f["kind"], f["detail"]))
 
     wall = time.time() - t0
@@ -384,7 +455,7 @@ def main(argv=None):
     discards = {k.split(":", 1)[1]: v for k, v in total.c.items() if k.startswith("discard:")}
     classes = {k: v for k, v in sorted(total.c.items()) if not k.startswith(("attributed_to_known:", "discard:"))}
     exhaustive = bool(hasattr(check, "exhaustive")) and not harness_errors and not violations
-    complete = len(results) == len(jobs)
+    complete = len([r for r in results if r.get("tag") != "fuzz"]) == len(jobs)
     samples = total.samples or [{"note": "no non-trivial case was generated"}]
     coverage = {
         "evaluations": total.evaluations,
@@ -396,10 +467,12 @@ def main(argv=None):
         "attributed_to_known": attributed,
         "replayed_files": replayed,
         "shards": len(jobs),
-        "shards_completed": len(results),
+        "shards_completed": len([r for r in results if r.get("tag") != "fuzz"]),
     }
     for k, v in merged_extra.items():
         coverage[k] = dict(v)
+    if fuzz_info is not None:
+        coverage["coverage_guided"] = fuzz_info
     if hasattr(check, "exhaustive"):
         coverage["exhaustive"] = bool(exhaustive and complete)
         coverage["exhaustive_note"] = getattr(check, "EXHAUSTIVE_NOTE", "")
